@@ -92,6 +92,97 @@ theorem processBucketAux_noraise (cfg : Config) (now : Int) (shares : List (Shar
     rw [ih _ (fun s hs => h s (List.mem_cons_of_mem _ hs))]
     simp
 
+/-! ### the lease-age histogram across the state file -/
+
+theorem mem_histInsert (e x : HistKey × Nat) (l : Hist) : x ∈ histInsert e l ↔ x = e ∨ x ∈ l := by
+  induction l with
+  | nil => simp [histInsert]
+  | cons y r ih =>
+    simp only [histInsert]
+    split
+    · simp
+    · simp only [List.mem_cons, ih]
+      constructor
+      · rintro (h | h | h) <;> simp [h]
+      · rintro (h | h | h) <;> simp [h]
+
+theorem mem_histSorted (h : Hist) (x : HistKey × Nat) : x ∈ h.foldr histInsert [] ↔ x ∈ h := by
+  induction h with
+  | nil => simp
+  | cons e r ih => simp only [List.foldr_cons, mem_histInsert, ih, List.mem_cons]
+
+theorem keys_histInsert (e : HistKey × Nat) (l : Hist) (k : HistKey) :
+    k ∈ (histInsert e l).map (·.1) ↔ k = e.1 ∨ k ∈ l.map (·.1) := by
+  simp only [List.mem_map, mem_histInsert]
+  constructor
+  · rintro ⟨x, (rfl | hx), rfl⟩
+    · exact Or.inl rfl
+    · exact Or.inr ⟨x, hx, rfl⟩
+  · rintro (rfl | ⟨x, hx, rfl⟩)
+    · exact ⟨e, Or.inl rfl, rfl⟩
+    · exact ⟨x, Or.inr hx, rfl⟩
+
+theorem nodup_histInsert (e : HistKey × Nat) (l : Hist) (hk : e.1 ∉ l.map (·.1)) (hn : (l.map (·.1)).Nodup) :
+    ((histInsert e l).map (·.1)).Nodup := by
+  induction l with
+  | nil => simp [histInsert]
+  | cons y r ih =>
+    simp only [List.map_cons, List.nodup_cons, List.mem_cons, not_or] at hk hn
+    simp only [histInsert]
+    split
+    · simp only [List.map_cons, List.nodup_cons, List.mem_cons, not_or]
+      exact ⟨⟨hk.1, hk.2⟩, hn.1, hn.2⟩
+    · simp only [List.map_cons, List.nodup_cons]
+      refine ⟨?_, ih hk.2 hn.2⟩
+      rw [keys_histInsert]
+      rintro (h | h)
+      · exact hk.1 h.symm
+      · exact hn.1 h
+
+theorem nodup_histSorted (h : Hist) (hn : (h.map (·.1)).Nodup) : ((h.foldr histInsert []).map (·.1)).Nodup := by
+  induction h with
+  | nil => simp
+  | cons e r ih =>
+    simp only [List.map_cons, List.nodup_cons] at hn
+    simp only [List.foldr_cons]
+    apply nodup_histInsert _ _ _ (ih hn.2)
+    intro hk
+    obtain ⟨x, hx, hxe⟩ := List.mem_map.1 hk
+    exact hn.1 (List.mem_map.2 ⟨x, (mem_histSorted r x).1 hx, hxe⟩)
+
+theorem dictSet_new (d : Hist) (k : HistKey) (v : Nat) (hk : k ∉ d.map (·.1)) : dictSet d k v = d ++ [(k, v)] := by
+  unfold dictSet
+  have : d.any (fun e => e.1 == k) = false := by
+    rw [List.any_eq_false]
+    intro x hx hh
+    exact hk (List.mem_map.2 ⟨x, hx, by simpa using hh⟩)
+  simp [this]
+
+/-- rebuilding a dict from a list of distinct keys gives exactly that list -/
+theorem fromJson_distinct (l : Hist) : ∀ (acc : Hist), ((acc ++ l).map (·.1)).Nodup →
+    (l.map (fun e => (e.1.1, e.1.2, e.2))).foldl (fun d t => dictSet d (t.1, t.2.1) t.2.2) acc = acc ++ l := by
+  induction l with
+  | nil => intro acc _; simp
+  | cons e r ih =>
+    intro acc hn
+    simp only [List.map_cons, List.foldl_cons]
+    have hk : e.1 ∉ acc.map (·.1) := by
+      intro hin
+      rw [List.map_append, List.nodup_append] at hn
+      exact (hn.2.2 e.1 hin e.1 (by simp)) rfl
+    have he : ((e.1.1, e.1.2) : HistKey) = e.1 := rfl
+    rw [he, dictSet_new acc e.1 e.2 hk]
+    have : acc ++ [(e.1, e.2)] = acc ++ [e] := rfl
+    rw [this, ih (acc ++ [e]) (by simpa [List.append_assoc] using hn)]
+    simp
+
+/-- what a crawler created from a mid-cycle state file holds: the same dict, keys in sorted order -/
+theorem hist_reload (h : Hist) (hn : (h.map (·.1)).Nodup) :
+    histFromJson (histToJson h) = h.foldr histInsert [] := by
+  unfold histFromJson histToJson
+  have := fromJson_distinct (h.foldr histInsert []) [] (by simpa using nodup_histSorted h hn)
+  simpa using this
+
 /-! ### tahoe.cfg → configuration -/
 
 theorem configFromSettings_ok (s : Settings) (cfg : Config) (h : configFromSettings s = .ok cfg) :
